@@ -47,37 +47,29 @@ def gen_callbacks(ctx):
     return cbs, funcs, muts, txt
 
 
-def scan_c(ctx, callbacks):
-    """C side: functions registered with Lua, the Go callbacks they call, SQL write paths."""
-    res = {"registered": 0, "go_calls": {}, "unknown_go_calls": [], "sql_unguarded": [], "files": 0}
-    exported = set(callbacks)
-    for f in C_FILES:
-        p = os.path.join(ctx.repo, "contract", f)
-        if not os.path.exists(p):
-            continue
-        res["files"] += 1
-        txt = open(p, errors="replace").read()
-        txt_nc = re.sub(r"/\*.*?\*/", "", txt, flags=re.S)
-        txt_nc = re.sub(r"//[^\n]*", "", txt_nc)
-        res["registered"] += len(re.findall(r'\{\s*"[A-Za-z_0-9]+"\s*,\s*[A-Za-z_0-9]+\s*\}', txt_nc))
-        for m in re.finditer(r"\b([lL]ua[A-Z][A-Za-z0-9]*|isPublic)\s*\(", txt_nc):
-            n = m.group(1)
-            if n.startswith("luaL") or n.startswith("luaJIT") or n.startswith("luaopen"):
-                continue
-            res["go_calls"][n] = res["go_calls"].get(n, 0) + 1
-        if f == "db_module.c":
-            # every C function that executes SQL which may write must consult luaCheckView first
-            for fm in re.finditer(r"^static\s+int\s+(\w+)\s*\(lua_State\s*\*L\)\s*\{(.*?)^\}", txt_nc, re.S | re.M):
-                name, body = fm.group(1), fm.group(2)
-                writes = re.search(r"sqlite3_(step|exec)\s*\(", body) and not re.search(r"sqlite3_stmt_readonly|_readonly", body)
-                if name in ("db_exec", "db_pstmt_exec") or (writes and "exec" in name):
-                    if "luaCheckView" not in body and "sqlite3_stmt_readonly" not in body:
-                        res["sql_unguarded"].append(name)
-    # a Go callback called from C that the translator did not see as exported would escape the proof
-    for n in sorted(res["go_calls"]):
-        if n not in exported and not n.startswith("lua_") and n not in ("luaL", ):
-            res["unknown_go_calls"].append(n)
+def gen_c(ctx, callbacks):
+    """C side: lib/g6_cscan.py -> coq/Gen/CCallbacks.v"""
+    import importlib.util
+    spec = importlib.util.spec_from_file_location("g6_cscan", os.path.join(ctx.verif, "lib", "g6_cscan.py"))
+    mod = importlib.util.module_from_spec(spec)
+    spec.loader.exec_module(mod)
+    res = mod.scan(ctx.repo, callbacks)
+    vf.write_if_changed(os.path.join(vf.COQ, "Gen", "CCallbacks.v"), res["coq"])
     return res
+
+
+def c_unreviewed(ctx):
+    txt = ["From Coq Require Import String List Bool.", "From Verif Require Import VmGuard.CSide Gen.CCallbacks.",
+           "Definition U := Eval vm_compute in map (fun x => fst (fst x)) (c_unreviewed c_inventory).", "Print U."]
+    rc, out = ctx.coq_eval("c_unreviewed", "\n".join(txt))
+    if rc != 0:
+        return None
+    flat = " ".join(out.split())
+    names = re.findall(r'"([^"]+)"', flat.split(":")[0])
+    m = re.search(r"U\s*=\s*(.*?)\s*:\s*list", flat)
+    if m and m.group(1).strip() not in ("[]", "nil") and not names:
+        return None
+    return names
 
 
 def coq_paths(ctx, which):
@@ -86,7 +78,8 @@ def coq_paths(ctx, which):
            "f13": "filter (fun e => (eQ e || eV e) && negb (good e)) all_envs"}[which]
     txt = ["From Coq Require Import String List Bool.", "From Verif Require Import VmGuard.Lang VmGuard.Analysis Gen.Callbacks.",
            "Import ListNotations.",
-           "Definition P := Eval vm_compute in offending program callbacks %d (%s)." % (FUEL, flt), "Print P."]
+           "From Verif Require Import Gen.CCallbacks.",
+           "Definition P := Eval vm_compute in offending (program ++ c_program)%%list (callbacks ++ c_entries)%%list %d (%s)." % (FUEL, flt), "Print P."]
     rc, out = ctx.coq_eval("paths_" + which, "\n".join(txt))
     if rc != 0:
         return None, out
@@ -113,28 +106,25 @@ def run(ctx):
     ctx.assumptions = ["amounts are non-negative or fork version >= 5 (F13 otherwise)",
                        "contract code reaches the state only through the exported callbacks (LuaJIT sandbox)",
                        "Q is not modified during an execution; nestedView is only changed by luaViewStart/luaViewEnd around view functions"]
-    cres = scan_c(ctx, cbs)
-    ctx.obligations += 1 + 2          # generated reflection obligation + two C-side obligations
+    cres = gen_c(ctx, cbs)
+    ctx.coq_make(["Gen/CCallbacks.vo", "VmGuard/CSide.vo"])
     # ---- paths
     bad, out1 = coq_paths(ctx, "good")
     f13, out2 = coq_paths(ctx, "f13")
     if bad is None:
         ctx.violation("could not evaluate the analysis on the translated callbacks", {"log": out1[-2000:]}, no_input=True)
         bad = []
-    ok_gen = pr["ok"] and bad == []
-    if ok_gen:
-        ctx.discharged += 1
     c_fail = []
-    if cres["unknown_go_calls"]:
-        c_fail.append(("C code calls Go callbacks that are not exported callbacks of the translated program", cres["unknown_go_calls"]))
-    else:
-        ctx.discharged += 1
-    if cres["sql_unguarded"]:
-        c_fail.append(("db_module.c executes SQL without consulting luaCheckView / a read-only statement test", cres["sql_unguarded"]))
-    else:
-        ctx.discharged += 1
+    unrev = c_unreviewed(ctx)
+    if unrev is None:
+        c_fail.append(("the C inventory could not be evaluated", []))
+    elif unrev:
+        c_fail.append(("C functions reachable from Lua that are registered or call Go callbacks but are not in the reviewed "
+                       "inventory VmGuard/CSide.v (new Lua-registered function, or new call of a Go callback from C)", unrev))
+    if cres["registered_not_found"]:
+        c_fail.append(("functions named in a luaL_Reg table whose definition the scanner did not find", cres["registered_not_found"]))
 
-    ctx.cov["evaluations"] = len(cbs) * 32
+    ctx.cov["evaluations"] = (len(cbs) + len(cres["entries"])) * 32
     ctx.cov["distinct_nontrivial"] = len([1 for f in funcs])
     ctx.cov["exhaustive"] = True
     ctx.cov["rule"] = ("evaluations = exported callbacks x all 32 valuations of the context atoms (enumerated completely by check); "
@@ -142,8 +132,9 @@ def run(ctx):
     ctx.cov["traces_validated_against_impl"] = 0
     ctx.cov["input_distribution"] = {"exported_callbacks": len(cbs), "translated_functions": len(funcs),
                                      "mutator_sites": len(muts), "mutator_names": sorted({m for m, _ in muts}),
-                                     "c_files_scanned": cres["files"], "c_registered_functions": cres["registered"],
-                                     "go_callbacks_called_from_c": len(cres["go_calls"])}
+                                     "c_files_translated": cres["files"], "c_lua_registered_entries": len(cres["entries"]),
+                                     "c_functions_translated": len(cres["reachable"]), "c_sql_exec_sites": cres["sql_sites"],
+                                     "go_callbacks_called_from_c": len({c for v in cres["inventory"].values() for c in v})}
     ctx.sample({"callbacks": cbs[:8]})
     m = re.search(r"Definition f_luaSetDB : stmt :=\n\s*(.*)\n", txt)
     if m:
@@ -180,4 +171,5 @@ def run(ctx):
             ctx.finding(key, "read-only context reaches %s in %s with a negative amount (fork < 5)" % (pth["mutator"], pth["callback"]),
                         {"path": pth, "note": nopro})
     for what, items in c_fail:
-        ctx.violation("C-side obligation failed: " + what, {"items": items, "note": nopro}, no_input=True)
+        if not bad:
+            ctx.violation("C-side obligation failed: " + what, {"items": items, "note": nopro}, no_input=True)
